@@ -10,7 +10,7 @@ CHECKS = {
          "native run only; held on the ladder (<= 2^17 quick, <= 2^21 thorough) and 10 content classes"),
  "C04": ("exploration", "exhaustive small sub-spaces (tables, all <=2-byte strings, all 3-byte UTF-8 scalars, cipher lengths 0..17 x 77 keys) plus random long inputs against an independent reference implementation", "differential oracle vs independent reference (regenerated crypt table, lookup3 transcription)", "§6 C04",
          "reference written from the published algorithms in harness/vh-mpq/src/lib.rs; a shared misreading would go unnoticed"),
- "C02": ("translation_validation", "differential exchange of archives in both directions with an independent MPQ implementation (lib/refmpq.py): every builder-written archive of the published-format subset is parsed and extracted by the reference, every reference-written archive is read by the library; mismatches are diagnosed against named deviation models so other changes stay visible", "differential oracle vs independent implementation, both directions", "§6 C02",
+ "C02": ("exploration", "differential exchange of archives in both directions with an independent MPQ implementation (lib/refmpq.py): every builder-written archive of the published-format subset is parsed and extracted by the reference, every reference-written archive is read by the library; mismatches are diagnosed against named deviation models so other changes stay visible", "differential oracle vs independent implementation, both directions", "§6 C02",
          "trusted base is an independent reading of the public MPQ format, not StormLib; subset V1/V2, classic tables, none/zlib/bzip2, no sector CRC"),
  "C12": ("fault_enumeration", "every state-changing syscall of build/compact (V1-V4, dest absent/present) is killed or failed (ENOSPC, EIO) with strace inject, plus two-fault sequences and RLIMIT_FSIZE short-write sweeps; a separate process judges the destination path afterwards (old | absent | complete new archive)", "syscall-level fault injection (strace) + post-mortem file-system oracle", "§6 C12",
          "process death and I/O errors only, not power loss; faults are confirmed to have fired inside the marker window from each run's own trace"),
